@@ -132,9 +132,25 @@ def rows():
                 return 'result %r is not a valid %s' % (res, natmod)
             if not c.endswith(r):
                 return '%s %r is not the account part of IBAN %r' % (natmod, r, c)
+            # the paired conversion leads back to the IBAN
+            b = C.outcome(M(natmod).to_iban, res)
+            if c[2:4] in ('00', '01', '99'):
+                return None    # alias check digits (known finding under C05/C07): the generator never produces them
+            if b[0] != 'ok' or canon('iban', b[1]) != c:
+                return 'to_iban(%r) = %r does not lead back to the IBAN %r' % (res, b[1:2], c)
         return chk
+
+    def no_postgiro_ibans(rng):
+        # Norwegian IBANs of 7-digit (postgiro) accounts: bank code 0000
+        out = []
+        for v in C.corpus('no.kontonr', limit=40, rng=rng) + C.synth_valid('no.kontonr', 20, rng):
+            k = canon('no.kontonr', v)
+            if k and len(k) == 7:
+                bban = '0000' + k
+                out.append('NO' + M('iban').calc_check_digits('NO00' + bban) + bban)
+        return out
     R.append(dict(name='es.iban.to_ccc', src='es.iban', convert=lambda x: M('es.iban').to_ccc(x), check=chk_iban_to('es.ccc')))
-    R.append(dict(name='no.iban.to_kontonr', src='no.iban', convert=lambda x: M('no.iban').to_kontonr(x), check=chk_iban_to('no.kontonr')))
+    R.append(dict(name='no.iban.to_kontonr', src='no.iban', extra=no_postgiro_ibans, convert=lambda x: M('no.iban').to_kontonr(x), check=chk_iban_to('no.kontonr')))
 
     def chk_abn(c, x, res):
         r = canon('au.abn', res)
@@ -359,6 +375,8 @@ def run_row(row, tier, rng, viols, keys, counters):
     base = C.corpus(src, limit=n, rng=rng)
     nums = []
     extra = C.synth_alphabet(src, rng, k=2 if tier == 'quick' else 6) + C.synth_digits_only(src, rng, k=4 if tier == 'quick' else 20)
+    if row.get('extra'):
+        extra = extra + row['extra'](rng)
     for v in base + C.synth_valid(src, n, rng, base=base, leading_zero_bias=0.5) + extra:
         c = canon(src, v)
         if c is not None and c not in nums and row.get('keep', lambda v: True)(c):
